@@ -73,8 +73,15 @@ func vkNewWorld(mod func(*config.Config)) *vkWorld {
 	if mod != nil {
 		mod(cfg)
 	}
+	return vkNewWorldPre(cfg)
+}
+
+// vkNewWorldPre builds the world with extra handlers IN FRONT of the cache
+// (hostsfile/blocklist-like local answerers), reached by clients and by the
+// cache's own internal sub-queries alike.
+func vkNewWorldPre(cfg *config.Config, pre ...middleware.Handler) *vkWorld {
 	w := &vkWorld{c: New(cfg), stub: &vkStub{}}
-	w.hs = []middleware.Handler{w.c, w.stub}
+	w.hs = append(append([]middleware.Handler{}, pre...), w.c, w.stub)
 	// CNAME chase / internal work goes through the real pipeline queryer over the same handlers.
 	w.c.SetQueryer(middleware.NewPipelineQueryer(middleware.VerifNewPipeline(w.hs, middleware.RecursionWorkPolicy{})))
 	return w
